@@ -27,6 +27,17 @@ def gen_content(rng, max_vars=7, max_depth=3, dashed=True, paths=True, free_vers
         parent = None
         if cands and rng.random() < 0.55:
             parent = pick(rng, cands)
+        if K["vars"] and rng.random() < 0.25:
+            # an id may be used again at another place of the forest (the UID is what must be unique)
+            reuse = pick(rng, [x["id"] for x in K["vars"] if not x["dashed"]] or [vid_name])
+            sibs = [x["id"] for x in K["vars"] if x["parent"] == parent]
+            new_uid = reuse if parent is None else "%s-%s" % (K["vars"][parent]["uid"], reuse)
+            if reuse not in sibs and new_uid not in [x["uid"] for x in K["vars"]]:
+                vid_name = reuse
+        sibs_now = [x["id"] for x in K["vars"] if x["parent"] == parent]
+        uid_now = vid_name if parent is None else "%s-%s" % (K["vars"][parent]["uid"], vid_name)
+        if vid_name in sibs_now or uid_now in [x["uid"] for x in K["vars"]]:
+            continue            # (an id re-used earlier may meet its own fresh draw: sibling ids and UIDs stay unique)
         v = {"n": n, "id": vid_name, "parent": parent, "dashed": False}
         if parent is None:
             v["depth"] = 1
@@ -38,9 +49,12 @@ def gen_content(rng, max_vars=7, max_depth=3, dashed=True, paths=True, free_vers
                     # the dashed UID borrows the name of a variant that IS part of the compose ("Server" next to
                     # "Server-Tools"): it then sorts between that variant and its children
                     pre = pick(rng, tops_plain)
-                v["id"] = pre + vid_name
-                v["uid"] = pre + "-" + vid_name
-                v["dashed"] = True
+                if (pre + vid_name) not in [x["id"] for x in K["vars"]] and (pre + "-" + vid_name) not in [x["uid"] for x in K["vars"]]:
+                    v["id"] = pre + vid_name
+                    v["uid"] = pre + "-" + vid_name
+                    v["dashed"] = True
+                else:
+                    v["uid"] = vid_name
             else:
                 v["uid"] = vid_name
         else:
@@ -62,6 +76,14 @@ def gen_content(rng, max_vars=7, max_depth=3, dashed=True, paths=True, free_vers
                     t[a] = "" if rng.random() < 0.08 else "%s/%s/%s" % (v["uid"], a, pick(rng, PATH_VALUES))
                 v["paths"][cat] = t
         K["vars"].append(v)
+        if v["parent"] is not None and K["vars"][v["parent"]]["parent"] is None and rng.random() < 0.15 and len(K["vars"]) < max_vars:
+            # a plain top-level variant whose id is the CONCATENATION of a parent id and its child's id ("Serveroptional"
+            # next to Server > optional): equal to the child's UID with the dash removed
+            cid = K["vars"][v["parent"]]["id"] + v["id"]
+            if cid not in [x["id"] for x in K["vars"]] and cid not in [x["uid"] for x in K["vars"]]:
+                K["vars"].append({"n": len(K["vars"]), "id": cid, "uid": cid, "parent": None, "dashed": False, "depth": 1,
+                                  "arches": sorted(subset(rng, pools.ARCHES, 1, 3)), "name": pick(rng, pools.NAMES),
+                                  "type": pick(rng, ["variant", "optional"]), "release": None, "paths": {}})
         if v["dashed"] and rng.random() < 0.5 and len(K["vars"]) < max_vars:
             # a sibling that sorts AFTER the dashed UID ("Srv-Server" < "SrvA1": '-' < 'A') but BEFORE its id
             # ("SrvA1" < "SrvServer"): id order and UID order disagree
